@@ -27,6 +27,7 @@ fn main() {
     let r = match args[1].as_str() {
         "rows" => rows::cmd_rows(&opts),
         "print" => rows::cmd_print(&opts),
+        "raw" => rows::cmd_raw(&opts),
         "expand" => expand::cmd_expand(&opts),
         "iters" => iters::cmd_iters(&opts),
         "meta" => meta::cmd_meta(&opts),
